@@ -85,7 +85,8 @@ def scale_value(rng):
 
 def gen_case(rng, tier):
     gamma = rng.choice(GAMMAS) if rng.random() < .9 else "1"
-    m = gen_mdp.gen_mdp(rng, nmax=5 if tier == "quick" else 6, amax=3, gamma=gamma, proper=True, min_states=2)
+    m = gen_mdp.gen_mdp(rng, nmax=5 if tier == "quick" else 6, amax=3, gamma=gamma, proper=True,
+                        min_states=1 if rng.random() < .05 else 2)
     learner = rng.choice(["ql", "sarsa", "esarsa", "dq"])
     r = rng.random()
     n, nA = m["n"], m["nA"]
@@ -120,20 +121,119 @@ def gen_case(rng, tier):
         episodes = rng.choice([5, 8, 12, 20])
         if rng.random() < .6:
             iq = {"kind": "table", "table": [[str(scale_value(rng)) for _ in range(nA)] for _ in range(n)]}
+    if family == "scale" and rng.random() < .12:
+        temp = rng.choice(["1/2", "2"])          # large Q / temperature: the behaviour softmax must not overflow
+    if family == "plain" and rng.random() < .1:
+        # boundary family: parameters within 2^-20 / 2^-30 of 0 or 1, a transition row (1 - k*2^-20, 2^-20, ...)
+        family = "edge"
+        tiny, near1 = F(1, 2**20), 1 - F(1, 2**20)
+        m["gamma"] = str(near1)
+        alpha = str(rng.choice([tiny, near1, F(1), F(0)]))
+        eps = str(rng.choice([F(1, 2**30), near1, F(0), F(1)]))
+        skew_row(rng, m, tiny)
+        episodes = rng.choice([1, 2, 3])
     if learner == "esarsa" and temp != "0":
         episodes = rng.choice([1, 1, 2, 3])     # recorded 44-bit probabilities enter the fold: keep it short
+    r = rng.random()
+    if r < .03:
+        episodes = 0                             # range(0): empty table, policy uniform everywhere
+    r = rng.random()
+    seed, gseed = rng.randrange(10**6), None
+    if r < .08:
+        seed = 0                                 # falsy seed
+    elif r < .13:
+        seed, gseed = None, rng.randrange(10**6)  # module-level `random`, seeded by the runner
     case = {"mdp": m, "learner": learner, "alpha": alpha, "eps": eps, "temp": temp, "family": family,
-            "initial_q": iq, "episodes": episodes, "seed": rng.randrange(10**6)}
+            "initial_q": iq, "episodes": episodes, "seed": seed, "global_seed": gseed,
+            "labels": gen_labels(rng, m), "form": rng.choice(["quick", "quick", "class", "quickmdp", "quick_init_state"]),
+            "int_params": rng.random() < .3, "pretouch": rng.random() < .2}
     if rng.random() < .3:
         # object reuse: the SAME learner object is trained on A, then on B (same state and action labels,
-        # independently drawn absorbing set / action sets / transitions / rewards / discount), then on A again
+        # independently drawn absorbing set / action sets / transitions / rewards / discount), then on A again;
+        # the runner also reuses the MDP OBJECT of A for the third call
         for _ in range(40):
             mb = gen_mdp.gen_mdp(rng, nmax=n, amax=3, gamma=rng.choice(GAMMAS), proper=True, min_states=n)
             if mb["nA"] == nA:
                 case["stages"] = [m, mb, m]
                 case["episodes"] = min(episodes, 8)
+                case["labels"]["a_order"] = None   # action sets differ between the stages: ids in sorted order
                 break
     return case
+
+
+S_POOL_SIZE, A_POOL_SIZE = 7, 3
+FALSY_S = {"str": [0], "tuple": [0], "mixed": [0, 1, 2], "boolmixed": [0, 1, 2]}
+FALSY_A = {"str": [0], "tuple": [0], "mixed": [0, 1, 2], "boolmixed": [0]}
+
+
+def gen_labels(rng, m):
+    """label scheme (pools live in harness/impl/c10_impl.py): ids themselves, or strings / tuples / mixed
+    types, always containing a falsy label (0, "", (), False) among the states and among the actions;
+    per-state action order sorted / reversed / shuffled"""
+    n, nA = m["n"], m["nA"]
+    ss = rng.choice(["int", "int", "str", "tuple", "mixed", "boolmixed"])
+    sa = rng.choice(["int", "int", "str", "tuple", "mixed", "boolmixed"])
+    lab = {"s": ss, "a": sa}
+    if ss != "int":
+        idx = rng.sample(range(S_POOL_SIZE), n)
+        if not any(i in FALSY_S[ss] for i in idx):
+            idx[rng.randrange(n)] = rng.choice(FALSY_S[ss])
+        lab["s_idx"] = idx
+    if sa != "int":
+        idx = rng.sample(range(A_POOL_SIZE), nA)
+        if not any(i in FALSY_A[sa] for i in idx):
+            idx[rng.randrange(nA)] = rng.choice(FALSY_A[sa])
+        lab["a_idx"] = idx
+    mode = rng.choice(["sorted", "reversed", "shuffled"])
+    order = []
+    for s in range(n):
+        ids = list(m["actions"][s])
+        if mode == "reversed":
+            ids.reverse()
+        elif mode == "shuffled":
+            rng.shuffle(ids)
+        order.append(ids)
+    lab["a_order"] = order
+    return lab
+
+
+def skew_row(rng, m, tiny):
+    """one transition row of a non-absorbing state becomes (1 - k*tiny, tiny, ..., tiny); the big mass goes to the
+    successor nearest to the absorbing set so that episodes stay short"""
+    n = m["n"]
+    dist = {s: 0 for s in range(n) if m["absorbing"][s]}
+    changed = True
+    while changed:
+        changed = False
+        for k, row in m["trans"].items():
+            s = int(k.split(",")[0])
+            if s in dist:
+                continue
+            ds = [dist[ns] for ns, p in row if F(p) > 0 and ns in dist]
+            if ds:
+                dist[s] = min(ds) + 1
+                changed = True
+    cands = [k for k, row in m["trans"].items()
+             if not m["absorbing"][int(k.split(",")[0])] and sum(1 for ns, p in row if F(p) > 0) >= 2]
+    if not cands:
+        return
+    k = rng.choice(cands)
+    row = m["trans"][k]
+    pos = [ns for ns, p in row if F(p) > 0]
+    best = min(pos, key=lambda ns: dist.get(ns, n + 1))
+    m["trans"][k] = [[ns, (str(1 - (len(pos) - 1) * tiny) if ns == best else str(tiny)) if F(p) > 0 else "0"] for ns, p in row]
+
+
+def falsy_id(lab, which):
+    """id carrying a falsy label (0 / "" / () / False) under the case's label scheme, or None"""
+    scheme = lab.get(which, "int")
+    if scheme == "int":
+        return 0
+    fal = (FALSY_S if which == "s" else FALSY_A)[scheme]
+    for i, pi in enumerate(lab[which + "_idx"]):
+        if pi in fal:
+            return i
+    return None
 
 
 def q0_table(case):
@@ -329,14 +429,26 @@ def run(ctx):
         cases = [ctx.replay_case["detail"]["case"]]
     else:
         cases = [gen_case(ctx.rng, tier) for _ in range(ncases)]
+        # constructor error path: initial_q neither a number nor callable must raise ValueError
+        for bad in ("bad", [1.0], None):
+            c = gen_case(ctx.rng, tier)
+            c["expect_raise"] = bad if bad is not None else {"not": "callable"}
+            cases.append(c)
     shards = min(ctx.jobs, 8 if tier == "quick" else 16)
     impl = ctx.impl("c10_impl.py", {"cases": cases}, shards=max(1, shards))["results"]
     # every stage of a multi-stage case is judged on its own, against its own MDP; the view keeps the whole
     # case (all stages) so that a replay re-runs the same learner object through the same sequence
     ngen, nmulti = len(cases), sum(1 for c in cases if c.get("stages"))
     vcases, vimpl = [], []
+    error_path_checked = 0
     for case, res in zip(cases, impl):
         stages = case.get("stages") or [case["mdp"]]
+        if case.get("expect_raise") is not None and "error" not in res:
+            error_path_checked += 1
+            if res.get("raised") != "ValueError":
+                ctx.violation("C10:%s:constructor accepts an initial_q that is neither a number nor callable" % case["learner"],
+                              {"case": case, "raised": res.get("raised")}, found=True)
+            continue
         if "error" in res:
             vcases.append(case), vimpl.append(res)
             continue
@@ -356,8 +468,11 @@ def run(ctx):
     for i, (case, res) in enumerate(zip(cases, impl)):
         kind = case["learner"]
         if "error" in res:
-            ctx.violation("C10:%s:raises:%s" % (kind, res["error"].split(":")[0]),
-                          {"case": case, "error": res["error"], "trace": res.get("trace", "")}, found=True)
+            exc = res["error"].split(":")[0]
+            sig = "C10:%s:raises:%s" % (kind, exc)
+            if exc == "OverflowError" and "epsilon_softmax_sample" in res.get("trace", ""):
+                sig = "C10:softmax-sample-overflows-for-large-q-over-temperature"
+            ctx.violation(sig, {"case": case, "error": res["error"], "trace": res.get("trace", "")}, found=True)
             continue
         m = case["mdp"]
         # ---- structural checks on what came back (cheap, Python) ----
@@ -379,6 +494,11 @@ def run(ctx):
                 bad = ("policy supports an unavailable action", {"state": s})
         if len(res["episodes"]) != int(case["episodes"]) and not bad:
             bad = ("number of episodes differs from the configured one", {"episodes": len(res["episodes"])})
+        if not res.get("twin_ok", True) and not bad:
+            bad = ("a second learner object with the default listener on the same MDP object returns a different table or episode rewards",
+                   res.get("twin_detail"))
+        if not res.get("policy_requery_ok", True) and not bad:
+            bad = ("policy answers differently when queried twice", {})
         if res["keys_after_policy"] != res["keys"]:
             stats["keys_mutated_by_policy_query"] += 1
             if not bad:
@@ -392,7 +512,7 @@ def run(ctx):
         mk = model_kind(case)
         gen = mk == "esarsag"
         nsteps = sum(len(e["steps"]) for e in res["episodes"])
-        if nsteps > (MAX_STEPS_GEN if gen else MAX_STEPS):
+        if nsteps > (MAX_STEPS_GEN if (gen or case.get("family") == "edge") else MAX_STEPS):
             stats["long_runs_oracle_only"] += 1
             clause, where = search_failing(case, res, impl_rows, impl_pol)
             if clause:
@@ -415,6 +535,44 @@ def run(ctx):
         # ---- input distribution ----
         stats["by_learner"][kind] = stats["by_learner"].get(kind, 0) + 1
         stats["family"][case.get("family", "plain")] = stats["family"].get(case.get("family", "plain"), 0) + 1
+        lab = case.get("labels") or {}
+        for key, val in (("form", case.get("form", "quick")), ("state_labels", lab.get("s", "int")),
+                         ("action_labels", lab.get("a", "int")),
+                         ("seed_kind", "none" if case["seed"] is None else ("zero" if case["seed"] == 0 else "other")),
+                         ):
+            stats.setdefault(key, {})
+            stats[key][val] = stats[key].get(val, 0) + 1
+        stats.setdefault("branches", {})
+        br = stats["branches"]
+
+        def hit(name, cond=True):
+            br[name] = br.get(name, 0) + int(bool(cond))
+        allsteps = [st for e in res["episodes"] for st in e["steps"]]
+        ep_, tp_ = F(case["eps"]), F(case["temp"])
+        hit("episodes_0", int(case["episodes"]) == 0)
+        hit("single_state_mdp", m["n"] == 1)
+        hit("int_params", case.get("int_params"))
+        hit("pretouched_mdp_object", case.get("pretouch"))
+        hit("action_order_not_sorted", lab.get("a_order") and any(o != sorted(o) for o in lab["a_order"]))
+        hit("sample:random_branch_possible(eps>0)", ep_ > 0 and allsteps)
+        hit("sample:softmax_branch(temp!=0,eps<1)", tp_ != 0 and ep_ < 1 and allsteps)
+        hit("sample:hardmax_branch(temp=0,eps<1)", tp_ == 0 and ep_ < 1 and allsteps)
+        hit("dist:temp0_eps0_early_return", kind == "esarsa" and tp_ == 0 and ep_ == 0 and allsteps)
+        hit("dist:temp0_mixture", kind == "esarsa" and tp_ == 0 and ep_ != 0 and allsteps)
+        hit("dist:softmax_eps0_early_return", kind == "esarsa" and tp_ != 0 and ep_ == 0 and allsteps)
+        hit("dist:softmax_mixture", kind == "esarsa" and tp_ != 0 and ep_ != 0 and allsteps)
+        hit("dq:coin_true_and_false_both_seen", kind == "dq" and {st.get("coin") for st in allsteps} >= {True, False})
+        hit("episode_starts_in_absorbing_state", any(m["absorbing"][e["start"]] for e in res["episodes"]))
+        hit("step_into_absorbing_state", any(m["absorbing"][st["ns"]] for st in allsteps))
+        hit("deterministic_transition_taken", any(sum(1 for x, p in m["trans"]["%d,%d" % (st["s"], st["a"])] if F(p) > 0) == 1 for st in allsteps))
+        hit("falsy_action_label_taken", any(st["a"] == falsy_id(lab, "a") for st in allsteps))
+        hit("falsy_state_label_visited", any(falsy_id(lab, "s") in (st["s"], st["ns"]) for st in allsteps))
+        hit("sarsa_falsy_next_action", kind == "sarsa" and any(st.get("na") == falsy_id(lab, "a") for st in allsteps))
+        hit("policy_state_absent_from_table", any(s not in impl_rows for s in range(m["n"])))
+        hit("initial_q:" + case["initial_q"]["kind"])
+        hit("scale_family_with_softmax_temperature(q/temp>709)", case.get("family") == "scale" and tp_ != 0 and allsteps)
+        hit("falsy_action_taken:" + kind, any(st["a"] == falsy_id(lab, "a") for st in allsteps))
+        hit("falsy_state_visited:" + kind, any(falsy_id(lab, "s") in (st["s"], st["ns"]) for st in allsteps))
         if case.get("stages"):
             stats["stage"][str(case["stage"])] = stats["stage"].get(str(case["stage"]), 0) + 1
             if case["stage"] == 1:
@@ -454,7 +612,10 @@ def run(ctx):
             distinct.add(vlib.structural_hash([case["mdp"], kind, case["alpha"], case["eps"], case["temp"],
                                                case["initial_q"], res["episodes"]]))
 
+    import time as _t
+    _t0 = _t.time()
     vals = ctx.coq(PRE, terms, shard=6 if tier == "quick" else 20)
+    stats["coq_wall_s"] = round(_t.time() - _t0, 1)
     nchk = 0
     interval_checked = 0
     rows_by_case = {i: v for (k, i), v in zip(meta, vals) if k == "rows"}
@@ -523,10 +684,15 @@ def run(ctx):
                 "x softmax temperature {0,1/2,2} x initial_q {float const, int const, callable table} x episodes 1..20 x seed; "
                 "20%% reward-scale family (rewards / initial Q = 2^20 + k*2^-12, step size 1, epsilon 1: distinct Q-values with relative gap < 1e-9); "
                 "30%% object-reuse sequences (ONE learner object trained on A, B, A with the same labels and independently drawn "
-                "absorbing sets / action sets / rewards; each stage is one evaluation against its own MDP); "
+"absorbing sets / action sets / rewards; each stage is one evaluation against its own MDP; the MDP object of A is reused, "
+                "20%% with its cached matrix views touched first; every run is repeated by a twin learner with msdm's default listener); "
+                "10%% boundary family (gamma = 1-2^-20, step size / epsilon in {0, 2^-20, 2^-30, 1-2^-20, 1}, a transition row (1-k*2^-20, 2^-20, ..)); "
+                "state and action labels int / str / tuple / mixed incl. falsy 0, '', (), False; per-state action order sorted/reversed/shuffled; "
+                "MDP as QuickTabularMDP / QuickMDP / hand-written TabularMDP subclass (list actions, Deterministic/Uniform distributions) / initial_state= form; "
+                "numeric parameters as int or float; seed 0 / None / other; episodes 0; single-state MDPs; 3 constructor error-path probes; "
                 "distinct = structural hash of (MDP, learner, parameters, recorded experience); non-trivial = at least one experienced step"
                 % (5 if tier == "quick" else 6),
         "samples": [{"case": cases[0], "impl": impl[0]}] if cases else [],
         "cases": len(cases), "generated_cases": ngen, "multi_stage_cases": nmulti,
-        "interval_checked": interval_checked, "input_features": stats,
+        "interval_checked": interval_checked, "error_path_checked": error_path_checked, "input_features": stats,
     })
